@@ -379,6 +379,26 @@ Definition from_string (deep_immutable : bool) (u : bytes) : outcome :=
 (* the three spellings from_string accepts in front of a cap: none, "ro.", "imm." *)
 Definition alleged_prefixes : list bytes := [[]; ro_prefix; imm_prefix].
 
+(* from_string_dirnode / _filenode / _mutable_filenode / _verifier(s, **kwargs):
+   u = from_string(s, **kwargs); _assert(I<...>URI.providedBy(u)); return u *)
+Inductive iface := IDirnodeURI | IFileURI | IMutableFileURI | IVerifierURI.
+
+Definition provides (i : iface) (c : cap) : bool :=
+  match i, c with
+  | IDirnodeURI, CDir _ => true
+  | IFileURI, CFile (CHK _ _ _ _ _ | LIT _) => true
+  | IMutableFileURI, CFile (SSK _ _ | SSKRO _ _ | MDMF _ _ | MDMFRO _ _) => true
+  | IVerifierURI, (CFile f | CDir f) =>
+    match f with CHKVerifier _ _ _ _ _ | SSKVerifier _ _ | MDMFVerifier _ _ => true | _ => false end
+  | _, _ => false
+  end.
+
+Definition typed_from_string (i : iface) (deep_immutable : bool) (u : bytes) : outcome :=
+  match from_string deep_immutable u with
+  | Ok c => if provides i c then Ok c else RaisesAssertion
+  | o => o
+  end.
+
 (* ------------------------------------------------ flags and attenuation *)
 Definition is_readonly_k (k : fkind) : bool :=
   match k with KSSK | KMDMF => false | _ => true end.
